@@ -17,6 +17,13 @@ package main
 //   id-wraparound     (special "wrap") one query left pending to X, then >= 65536+64 short-lived queries to X on the
 //                     same server (pre-cancelled, some answered at once): all must return, nothing may be left.
 //
+//   overlap-*         (special "overlap", end of this file) 2..6 queries outstanding at once on one server, to different
+//                     destinations, with resends interleaved by construction; every datagram written is checked:
+//                     destination <-> transaction id <-> method / arguments of the query it belongs to.
+//   bl-*              (scenarios in query.go) a configured IP blocklist that does not cover the destination (empty, ranges
+//                     around it, installed later) x Close before / inside / after a send, cancellations, write failures.
+//   strays            also: error / response messages from the exact destination whose "t" is absent, empty or not a string.
+//
 // Every query datagram the engine sees is also checked for its transaction id: the canonical uvarint of a counter value
 // no earlier query of the process carried (what the server model demands of EQueryStart, C07), one id per query.
 
@@ -24,6 +31,7 @@ import (
 	"context"
 	"encoding/binary"
 	"fmt"
+	"math/big"
 	"net"
 	"runtime"
 	"sort"
@@ -80,6 +88,25 @@ type qStray struct {
 	name string
 	addr *net.UDPAddr
 	t    func(string) string // nil: the query's own transaction id
+	// raw, when set, builds the whole datagram (k: index of the stray): messages the krpc encoder would not produce
+	raw func(t string, k int) []byte
+}
+
+// qStrayErrCode: KRPC error code naming stray k (the error datagrams have no sender id to carry it)
+func qStrayErrCode(k int) int { return 700 + k }
+
+// qRawMsg: a bencoded dictionary from already encoded (key, value) pairs given in key order; "" values are left out.
+func qRawMsg(kv ...string) []byte {
+	var b strings.Builder
+	b.WriteString("d")
+	for i := 0; i+1 < len(kv); i += 2 {
+		if kv[i+1] == "" {
+			continue
+		}
+		fmt.Fprintf(&b, "%d:%s%s", len(kv[i]), kv[i], kv[i+1])
+	}
+	b.WriteString("e")
+	return []byte(b.String())
 }
 
 // qStrays: sources that are NOT the destination (another port, IP or zone), and the destination itself with an id that
@@ -136,6 +163,48 @@ func qStrays(d *net.UDPAddr) []qStray {
 	tmod("right-address-id-longer", func(t string) string { return t + "\x00" })
 	tmod("right-address-id-prefix", func(t string) string { return t[:len(t)-1] })
 	tmod("right-address-id-adjacent", func(t string) string { b := []byte(t); b[len(b)-1] ^= 1; return string(b) })
+	// From the exact destination, which has exactly this one query outstanding: error and response messages whose "t" is
+	// absent, empty or of another bencode type; messages without "y".  None echoes the id.
+	bstr := func(x string) string { return fmt.Sprintf("%d:%s", len(x), x) }
+	raw := func(name string, f func(t string, k int) []byte) {
+		out = append(out, qStray{name: name, addr: cp(), raw: f})
+	}
+	eOf := func(k int) string { return fmt.Sprintf("li%de%se", qStrayErrCode(k), bstr("stray")) }
+	rOf := func(k int) string { id := qStrayID(k); return "d" + bstr("id") + bstr(string(id[:])) + "e" }
+	for _, y := range []string{"e", "r"} {
+		y := y
+		body := func(k int) (string, string) { // values of the keys "e" and "r"
+			if y == "e" {
+				return eOf(k), ""
+			}
+			return "", rOf(k)
+		}
+		tforms := []struct {
+			name string
+			t    func(t string) string
+		}{
+			{"t-absent", func(string) string { return "" }},
+			{"t-empty", func(string) string { return "0:" }},
+			{"t-integer", func(t string) string { v, _ := binary.Uvarint([]byte(t)); return fmt.Sprintf("i%de", v) }},
+			{"t-empty-list", func(string) string { return "le" }},
+			// not here: "t" = a list holding the id.  The bencode decoder of the pinned tree decodes that into the id itself, so
+			// the datagram does echo the id as far as krpc.Msg is concerned (decoder quirk, outside this property's oracle)
+		}
+		for _, tf := range tforms {
+			tf := tf
+			raw("right-address-"+y+"-"+tf.name, func(t string, k int) []byte {
+				e, r := body(k)
+				return qRawMsg("e", e, "r", r, "t", tf.t(t), "y", bstr(y))
+			})
+		}
+	}
+	raw("right-address-both-e-and-r-t-absent", func(t string, k int) []byte {
+		return qRawMsg("e", eOf(k), "r", rOf(k), "y", bstr("e"))
+	})
+	raw("right-address-no-y-t-absent", func(t string, k int) []byte { return qRawMsg("e", eOf(k), "r", rOf(k)) })
+	raw("right-address-no-y-t-empty", func(t string, k int) []byte { return qRawMsg("e", eOf(k), "t", "0:") })
+	raw("right-address-e-as-string-t-absent", func(t string, k int) []byte { return qRawMsg("e", bstr("stray"), "y", bstr("e")) })
+	raw("right-address-e-only", func(t string, k int) []byte { return qRawMsg("y", bstr("e")) })
 	return out
 }
 
@@ -157,6 +226,9 @@ func (r *qRun) stray(k int) {
 	b, err := bencode.Marshal(krpc.Msg{T: t, Y: "r", R: &krpc.Return{ID: qStrayID(k)}})
 	if err != nil {
 		panic(err)
+	}
+	if st.raw != nil {
+		b = st.raw(r.tid, k)
 	}
 	if !r.conn.inject(b, st.addr, 5*time.Second) && !r.closed {
 		oracle("C01", "serve-loop-stuck", "stray datagram (%s from %v) not taken: %s", st.name, st.addr, r.detail())
@@ -235,6 +307,10 @@ func (r *qRun) c07Oracles(o *qOutcome) {
 		got := o.res.Reply.SenderID()
 		want := qGenuineID(r.dest)
 		switch {
+		case o.res.Reply.E != nil && o.res.Reply.E.Code >= qStrayErrCode(0) && o.res.Reply.E.Code < qStrayErrCode(len(r.strays)):
+			st := r.strays[o.res.Reply.E.Code-qStrayErrCode(0)]
+			oracle("C07", "query-completed-by-non-matching-datagram:"+st.name, "query to %v (t=%x) returned the error datagram sent from %v with t=%q y=%q: %s",
+				r.dest, r.tid, st.addr, o.res.Reply.T, o.res.Reply.Y, r.detail())
 		case got != nil && got[0] == 0x66 && int(got[1]) < len(r.strays):
 			st := r.strays[got[1]]
 			oracle("C07", "query-completed-by-non-matching-datagram:"+st.name, "query to %v (t=%x) returned the datagram sent from %v with t=%x: %s",
@@ -371,6 +447,7 @@ func queryMoreScenarios(tier string, add func(qScn), d func(string, int, string)
 		n = 2<<16 + 64
 	}
 	add(qScn{tries: 1, reps: 1, tag: "id-wraparound", special: "wrap", wrapN: n})
+	queryOverlapScenarios(tier, add)
 }
 
 // ---------------------------------------------------------------- id wrap-around
@@ -609,5 +686,561 @@ func qDeathOracles(scs []qScn, crashed int, site, first string, seed uint64) {
 	emit("oracle C14 query-process-died:%s %q in %s tag=%s replay: h -seed %d query -only %d", site, first, lhs, tag, seed, crashed)
 	if fam := qFamily(tag); fam != "" {
 		emit("oracle C07 query-process-died:%s:%s %q in %s tag=%s replay: h -seed %d query -only %d", fam, site, first, lhs, tag, seed, crashed)
+	}
+}
+
+// ---------------------------------------------------------------- blocklists that do not cover the destination
+
+// qOtherIPs: addresses around ip (neighbours in the last and the first byte, the other address family's spelling of a
+// neighbour), never ip itself.
+func qOtherIPs(ip net.IP) []net.IP {
+	var out []net.IP
+	mod := func(i int, d byte) {
+		c := append(net.IP(nil), ip.To16()...)
+		c[i] += d
+		out = append(out, c)
+	}
+	mod(15, 1)
+	mod(15, 255)
+	mod(12, 1)
+	mod(0, 1)
+	out = append(out, net.IPv4(192, 0, 2, 1), net.ParseIP("2001:db8:ffff::1"))
+	return out
+}
+
+// qBlocklistOf: "" -> nil (no list), "empty" -> a list without ranges, "other" -> single-address ranges around ip and a
+// wide range below it, none of them covering ip.
+func qBlocklistOf(kind string, ip net.IP) *blocklist {
+	switch kind {
+	case "empty":
+		return blockOf()
+	case "other":
+		b := blockOf(qOtherIPs(ip)...)
+		if v := ip16int(ip); v != nil && v.Sign() > 0 {
+			hi := new(big.Int).Sub(v, big.NewInt(3))
+			if hi.Sign() > 0 {
+				b.rs = append(b.rs, brange{big.NewInt(1), hi}) // everything well below the destination
+			}
+		}
+		return b
+	}
+	return nil
+}
+
+// ---------------------------------------------------------------- overlapping queries on one server (C07 / C14)
+
+// Case family "overlap" (special "overlap"): K = 2..6 queries to K different destinations are outstanding on ONE server at
+// the same time, each with its own method, arguments (a target / info-hash naming the query), NumTries and script (never
+// answered, answered or cancelled inside its i-th send or after it).  The sends are interleaved by construction: the
+// resend-delay function is a barrier per round, so send i+1 of any query follows send i of every query that is still
+// under way ("barrier"); in "held" the first query is besides held inside its first socket write until the others have
+// done theirs; in "limiter" the queries start back to back behind a slow SendLimiter (every send waits there, policy
+// WaitOnRetries), so a query is encoded while others wait for their first send.  The caller of the resend-delay function
+// is recognised by its goroutine (the one that called WriteTo for that query); an unknown caller gets 1 ms and no barrier.
+//
+// Oracles, on every datagram the socket was handed (what was actually written, after a hold):
+//   C07 overlap:datagram-carries-transaction-id-of-another-outstanding-query   every datagram to the destination of query j
+//       carries the id of j's first datagram, and no other query's
+//       overlap:outstanding-queries-share-transaction-id                        ids of the K queries pairwise different
+//       overlap:datagram-carries-content-of-another-query                       method / target of the datagram are those of j
+//       query-completed-by-non-matching-datagram:overlap                        j returns only j's reply (sender id names j)
+//   C14 too-many-sends, query-did-not-return, transaction-leak, goroutine-leak:query   as for single queries
+// Model: one qcase line per query (sub-index .<j>): a query beside others behaves as the query alone.
+type qOvQuery struct {
+	tries  int
+	method string
+	point  string // "" never acted on; "w" / "g"
+	i      int
+	action string // reply cancel
+}
+
+func (q qOvQuery) script(nstrays int) string {
+	if q.point == "" && nstrays == 0 {
+		return "-"
+	}
+	var ds []string
+	if q.point == "w" && q.i == 1 { // the script is in the order of the points
+		ds = append(ds, fmt.Sprintf("%s%d:%s", q.point, q.i, q.action))
+	}
+	for k := 0; k < nstrays; k++ {
+		ds = append(ds, "g1:stray")
+	}
+	if q.point != "" && len(ds) != nstrays+1 {
+		ds = append(ds, fmt.Sprintf("%s%d:%s", q.point, q.i, q.action))
+	}
+	return strings.Join(ds, ",")
+}
+
+type qOverlap struct {
+	mode   string // barrier held limiter
+	cross  bool   // at the first barrier every query's id is echoed from every other query's destination, and vice versa
+	sameIP bool   // the destinations differ in the port only
+	qs     []qOvQuery
+}
+
+func (ov *qOverlap) String() string {
+	var ss []string
+	for _, q := range ov.qs {
+		ss = append(ss, fmt.Sprintf("%s/%d/%s", q.method, q.tries, q.script(0)))
+	}
+	return fmt.Sprintf("mode=%s cross=%v sameip=%v queries=%s", ov.mode, ov.cross, ov.sameIP, strings.Join(ss, ";"))
+}
+
+func qGoid() int64 {
+	var buf [64]byte
+	n := runtime.Stack(buf[:], false)
+	f := strings.Fields(string(buf[:n]))
+	if len(f) < 2 {
+		return -1
+	}
+	var id int64
+	for _, c := range f[1] {
+		if c < '0' || c > '9' {
+			return -1
+		}
+		id = id*10 + int64(c-'0')
+	}
+	return id
+}
+
+func qOvTarget(j int) (id krpc.ID) {
+	for i := range id {
+		id[i] = byte(0xa0 + j)
+	}
+	id[19] = byte(j)
+	return
+}
+
+func qOvSender(j int) (id krpc.ID) {
+	id[0], id[1], id[19] = 0x78, byte(j), byte(j)
+	return
+}
+
+func qOverlapCase(idx int, sc *qScn, base0 *int) {
+	ov := sc.ov
+	K := len(ov.qs)
+	outs := make([]map[string]bool, K)
+	for j := range outs {
+		outs[j] = map[string]bool{}
+	}
+	maxPending, wedged := 0, false
+	for rep := 0; rep < sc.reps && !wedged; rep++ {
+		wedged = qOverlapRun(idx, sc, rep, outs, &maxPending)
+	}
+	leak := waitGoroutines(*base0, 3*time.Second)
+	if leak > 0 {
+		oracle("C14", "goroutine-leak:query", "+%d goroutines after %d repetitions of overlap case %d (%s)", leak, sc.reps, idx, ov)
+		*base0 = runtime.NumGoroutine()
+	}
+	emit("# qoverlap %d: %s", idx, ov)
+	nstrays := 0
+	if ov.cross {
+		nstrays = 2 * (K - 1)
+	}
+	for j, q := range ov.qs {
+		var l []string
+		for o := range outs[j] {
+			l = append(l, o)
+		}
+		sort.Strings(l)
+		rl := "z"
+		if ov.mode == "limiter" {
+			rl = "wr"
+		}
+		emit("qcase %d.%d %d %s - 0 0 0 %s => %d %s %d %d", idx, j, q.tries, rl, q.script(nstrays), len(l), strings.Join(l, " "), maxPending, leak)
+		maxPending, leak = 0, 0 // reported once
+	}
+}
+
+// qOverlapRun: one repetition; returns whether the server was left wedged.
+func qOverlapRun(idx int, sc *qScn, rep int, outs []map[string]bool, maxPending *int) bool {
+	ov := sc.ov
+	K := len(ov.qs)
+	detail := fmt.Sprintf("overlap case %d rep=%d tag=%s %s replay: h query -only %d", idx, rep, sc.tag, ov, idx)
+	conn := &holdConn{fakeConn: newFakeConn()}
+	dests := make([]*net.UDPAddr, K)
+	for j := range dests {
+		if ov.sameIP {
+			dests[j] = &net.UDPAddr{IP: net.IPv4(10, 2, 0, 9), Port: 7300 + 16*rep + j}
+		} else if j%2 == 1 {
+			dests[j] = &net.UDPAddr{IP: net.IPv4(10, 2, byte(j+1), byte(rep+1)).To4(), Port: 7300 + 16*rep + j}
+		} else {
+			dests[j] = &net.UDPAddr{IP: net.IPv4(10, 2, byte(j+1), byte(rep+1)), Port: 7300 + 16*rep + j}
+		}
+	}
+	destOf := func(a *net.UDPAddr) int {
+		for j, d := range dests {
+			if a != nil && a.Port == d.Port && a.IP.Equal(d.IP) {
+				return j
+			}
+		}
+		return -1
+	}
+	var mu sync.Mutex
+	cond := sync.NewCond(&mu)
+	goOf := map[int64]int{}      // sender goroutine -> query
+	tids := make([]string, K)    // id of the first datagram handed to WriteTo for the query's destination
+	sends := make([]int, K)      // WriteTo calls seen per query
+	gates := make([]int, K)      // resend-delay calls per query
+	term := make([]bool, K)      // the script has ended the query
+	arrived := map[int]int{}     // round -> queries whose send of that round has returned (or that will never do it)
+	cancels := make([]context.CancelFunc, K)
+	barrierTimeouts, unknownGates := 0, 0
+	// queries expected to perform send i: tries >= i and not ended by the script in an earlier round
+	expected := func(i int) int {
+		n := 0
+		for _, q := range ov.qs {
+			if q.tries >= i && (q.point == "" || q.i >= i) {
+				n++
+			}
+		}
+		return n
+	}
+	waitFor := func(f func() bool, d time.Duration) bool { // mu held
+		deadline := time.Now().Add(d)
+		for !f() {
+			if time.Now().After(deadline) {
+				return false
+			}
+			mu.Unlock()
+			time.Sleep(50 * time.Microsecond)
+			mu.Lock()
+		}
+		return true
+	}
+	act := func(j int) {
+		q := ov.qs[j]
+		mu.Lock()
+		term[j] = true
+		t := tids[j]
+		mu.Unlock()
+		switch q.action {
+		case "reply":
+			b, err := bencode.Marshal(krpc.Msg{T: t, Y: "r", R: &krpc.Return{ID: qOvSender(j)}})
+			if err != nil {
+				panic(err)
+			}
+			conn.inject(b, dests[j], 5*time.Second)
+		case "cancel":
+			cancels[j]()
+		}
+	}
+	crossDone := false
+	crossStrays := func() {
+		for j := 0; j < K; j++ {
+			for k := 0; k < K; k++ {
+				if k == j {
+					continue
+				}
+				mu.Lock()
+				t := tids[k]
+				mu.Unlock()
+				if t == "" {
+					continue
+				}
+				// the id of query k echoed from the destination of query j
+				b, _ := bencode.Marshal(krpc.Msg{T: t, Y: "r", R: &krpc.Return{ID: qStrayID(16*j + k)}})
+				conn.inject(b, dests[j], 5*time.Second)
+			}
+		}
+	}
+	conn.before = func(b []byte, addr *net.UDPAddr) {
+		m, ok := decodeLikeServer(b)
+		j := destOf(addr)
+		if j < 0 {
+			return
+		}
+		mu.Lock()
+		goOf[qGoid()] = j
+		sends[j]++
+		n := sends[j]
+		first := tids[j] == "" && ok
+		if first {
+			tids[j] = m.T
+		}
+		cond.Broadcast()
+		if ov.mode == "held" && j == 0 && n == 1 {
+			// held inside the first write until every other query has done its first send
+			waitFor(func() bool { return arrived[1] >= expected(1)-1 }, 3*time.Second)
+		}
+		mu.Unlock()
+		if first {
+			qCheckTid(m.T, detail)
+		}
+		if q := ov.qs[j]; q.point == "w" && q.i == n {
+			act(j)
+		}
+	}
+	var lim *rate.Limiter
+	if ov.mode == "limiter" {
+		lim = rate.NewLimiter(rate.Every(4*time.Millisecond), 1)
+	} else {
+		lim = rate.NewLimiter(rate.Inf, 1)
+	}
+	cfg := &dht.ServerConfig{
+		Conn:          conn,
+		NoSecurity:    true,
+		StartingNodes: func() ([]dht.Addr, error) { return nil, nil },
+		QueryResendDelay: func() time.Duration {
+			mu.Lock()
+			j, ok := goOf[qGoid()]
+			if !ok {
+				unknownGates++
+				mu.Unlock()
+				return time.Millisecond
+			}
+			gates[j]++
+			i := gates[j]
+			q := ov.qs[j]
+			if i <= q.tries { // call tries+1 is the time-out interval after the last send
+				arrived[i]++
+			}
+			if term[j] {
+				mu.Unlock()
+				return time.Hour
+			}
+			if i <= q.tries {
+				if !waitFor(func() bool { return arrived[i] >= expected(i) }, 3*time.Second) {
+					barrierTimeouts++
+				}
+				if ov.cross && i == 1 && !crossDone {
+					crossDone = true
+					mu.Unlock()
+					crossStrays()
+					mu.Lock()
+				}
+			}
+			mu.Unlock()
+			if q.point == "g" && q.i == i {
+				act(j)
+				return time.Hour
+			}
+			return time.Millisecond
+		},
+		Logger:      log.NewLogger().FilterLevel(log.Critical),
+		SendLimiter: lim,
+	}
+	cfg.NodeId[0] = 0x42
+	s, err := dht.NewServer(cfg)
+	if err != nil {
+		panic(err)
+	}
+	r := &qRun{sc: sc, idx: idx, rep: rep, s: s, conn: conn, dest: dests[0]} // for the guards
+	for atomic.LoadInt64(&conn.fakeConn.reads) == 0 {
+		time.Sleep(20 * time.Microsecond)
+	}
+	type qres struct {
+		j   int
+		res dht.QueryResult
+	}
+	resCh := make(chan qres, K)
+	for j := 0; j < K; j++ {
+		q := ov.qs[j]
+		ctx, cancel := context.WithCancel(context.Background())
+		cancels[j] = cancel
+		defer cancel()
+		in := dht.QueryInput{NumTries: q.tries}
+		switch q.method {
+		case "get_peers":
+			in.MsgArgs.InfoHash = qOvTarget(j)
+		default:
+			in.MsgArgs.Target = qOvTarget(j)
+		}
+		if ov.mode == "limiter" {
+			in.RateLimiting = dht.QueryRateLimiting{WaitOnRetries: true}
+		}
+		j := j
+		go func() { resCh <- qres{j, s.Query(ctx, dht.NewAddr(dests[j]), q.method, in)} }()
+		if ov.mode == "limiter" {
+			time.Sleep(100 * time.Microsecond)
+			continue
+		}
+		// the next query starts once this one's first datagram has reached the socket (is held there, for the first of "held")
+		mu.Lock()
+		waitFor(func() bool { return sends[j] >= 1 }, 2*time.Second)
+		mu.Unlock()
+	}
+	results := make([]*dht.QueryResult, K)
+	timeout := time.After(15 * time.Second)
+	wedged := false
+collect:
+	for n := 0; n < K; n++ {
+		select {
+		case x := <-resCh:
+			res := x.res
+			results[x.j] = &res
+		case <-timeout:
+			break collect
+		}
+	}
+	for j := range results {
+		if results[j] == nil {
+			oracle("C14", "query-did-not-return", "query %d of %s", j, detail)
+			wedged = true
+		}
+	}
+	if wedged {
+		for _, c := range cancels {
+			c()
+		}
+	}
+	// ---- every datagram the socket was handed
+	conn.fakeConn.mu.Lock()
+	writes := append([]fwrite(nil), conn.fakeConn.writes...)
+	conn.fakeConn.mu.Unlock()
+	mu.Lock()
+	tid := append([]string(nil), tids...)
+	bt, ug := barrierTimeouts, unknownGates
+	mu.Unlock()
+	perDest := make([]int, K)
+	reported := map[string]bool{}
+	once := func(prop, key, f string, a ...interface{}) {
+		if !reported[key] {
+			reported[key] = true
+			oracle(prop, key, f, a...)
+		}
+	}
+	// the id of a query: what its FIRST written datagram carried
+	wtid := make([]string, K)
+	for _, w := range writes {
+		j := destOf(w.addr)
+		if j < 0 {
+			continue
+		}
+		m, ok := decodeLikeServer(w.data)
+		if ok && wtid[j] == "" {
+			wtid[j] = m.T
+		}
+	}
+	for j := 0; j < K; j++ {
+		for k := j + 1; k < K; k++ {
+			if wtid[j] != "" && wtid[j] == wtid[k] {
+				once("C07", "overlap:outstanding-queries-share-transaction-id", "first datagrams of query %d (to %v) and query %d (to %v) both carry t=%x: %s", j, dests[j], k, dests[k], wtid[j], detail)
+			}
+		}
+	}
+	for n, w := range writes {
+		j := destOf(w.addr)
+		if j < 0 {
+			continue
+		}
+		perDest[j]++
+		m, ok := decodeLikeServer(w.data)
+		if !ok || m.Y != "q" || m.A == nil {
+			once("C07", "overlap:datagram-not-a-query", "datagram %d to %v (query %d) is not a KRPC query: %x ; %s", n, w.addr, j, w.data, detail)
+			continue
+		}
+		owner := -1
+		for k := range tid {
+			if k != j && (m.T == wtid[k] || m.T == tid[k]) && m.T != "" {
+				owner = k
+			}
+		}
+		if m.T != wtid[j] || m.T != tid[j] || owner >= 0 {
+			once("C07", "overlap:datagram-carries-transaction-id-of-another-outstanding-query", "datagram %d, send %d to %v of query %d (%s, first sent with t=%x), carries t=%x (query %d's): %s",
+				n, perDest[j], w.addr, j, ov.qs[j].method, tid[j], m.T, owner, detail)
+		}
+		want := qOvTarget(j)
+		got := m.A.Target
+		if ov.qs[j].method == "get_peers" {
+			got = m.A.InfoHash
+		}
+		if m.Q != ov.qs[j].method || got != want {
+			once("C07", "overlap:datagram-carries-content-of-another-query", "datagram %d, send %d to %v of query %d (%s %x), is %s %x%x t=%x: %s",
+				n, perDest[j], w.addr, j, ov.qs[j].method, want[:2], m.Q, m.A.Target[:2], m.A.InfoHash[:2], m.T, detail)
+		}
+	}
+	for j, q := range ov.qs {
+		eff := q.tries
+		if eff == 0 {
+			eff = 1
+		}
+		if perDest[j] > eff {
+			oracle("C14", "too-many-sends", "writes=%d tries=%d of query %d: %s", perDest[j], eff, j, detail)
+		}
+		if results[j] == nil {
+			outs[j][fmt.Sprintf("%d/-/stuck", perDest[j])] = true
+			continue
+		}
+		res := *results[j]
+		if res.Err == nil {
+			got := res.Reply.SenderID()
+			if want := qOvSender(j); got == nil || *got != want || res.Reply.T != tid[j] {
+				oracle("C07", "query-completed-by-non-matching-datagram:overlap", "query %d to %v (t=%x) returned t=%x from id %v: %s", j, dests[j], tid[j], res.Reply.T, got, detail)
+			}
+		}
+		outs[j][fmt.Sprintf("%d/-/%s", perDest[j], classOf(res))] = true
+	}
+	if bt > 0 || ug > 0 {
+		emit("# qoverlap %d rep %d: %d barrier time-outs, %d resend-delay calls from unknown goroutines", idx, rep, bt, ug)
+	}
+	if wedged {
+		r.closeServer()
+		return true
+	}
+	if p := r.outstanding(); p > 0 {
+		oracle("C14", "transaction-leak", "outstanding=%d after all queries returned: %s", p, detail)
+		if p > *maxPending {
+			*maxPending = p
+		}
+	}
+	r.closeServer()
+	return r.wedged
+}
+
+var qSeed uint64
+
+func queryOverlapScenarios(tier string, add func(qScn)) {
+	q := func(tries int, method, point string, i int, action string) qOvQuery {
+		return qOvQuery{tries: tries, method: method, point: point, i: i, action: action}
+	}
+	never := func(tries int, method string) qOvQuery { return qOvQuery{tries: tries, method: method} }
+	ad := func(tag string, ov qOverlap) {
+		o := ov
+		add(qScn{tries: 1, reps: 3, tag: "overlap-" + tag, special: "overlap", ov: &o})
+	}
+	for _, mode := range []string{"barrier", "held", "limiter"} {
+		// one query resends after another was started (and encoded)
+		ad(mode+"-pair", qOverlap{mode: mode, qs: []qOvQuery{never(2, "ping"), never(1, "ping")}})
+		ad(mode+"-pair-long-short", qOverlap{mode: mode, qs: []qOvQuery{never(3, "get_peers"), never(2, "ping")}})
+		ad(mode+"-pair-short-long", qOverlap{mode: mode, qs: []qOvQuery{never(3, "ping"), never(3, "find_node")}})
+		ad(mode+"-triple", qOverlap{mode: mode, qs: []qOvQuery{never(3, "ping"), never(2, "find_node"), never(4, "get_peers")}})
+		ad(mode+"-triple-answered", qOverlap{mode: mode, qs: []qOvQuery{q(3, "find_node", "g", 2, "reply"), q(2, "ping", "g", 1, "cancel"), never(3, "get_peers")}})
+		ad(mode+"-triple-answered-in-send", qOverlap{mode: mode, qs: []qOvQuery{q(3, "get_peers", "w", 2, "reply"), never(2, "find_node"), q(2, "ping", "g", 2, "reply")}})
+		ad(mode+"-triple-same-ip", qOverlap{mode: mode, sameIP: true, qs: []qOvQuery{never(2, "ping"), q(3, "find_node", "g", 3, "reply"), never(3, "ping")}})
+	}
+	ad("barrier-cross-echo", qOverlap{mode: "barrier", cross: true, qs: []qOvQuery{never(2, "ping"), q(3, "find_node", "g", 2, "reply"), q(2, "get_peers", "g", 2, "reply")}})
+	ad("held-cross-echo-same-ip", qOverlap{mode: "held", cross: true, sameIP: true, qs: []qOvQuery{q(2, "ping", "g", 1, "reply"), never(2, "ping")}})
+	// seeded: K queries, each with its own tries / method / script
+	n, maxK := 8, 4
+	if tier == "thorough" {
+		n, maxK = 120, 6
+	}
+	rg := (&rng{s: qSeed}).sub(0x0717)
+	methods := []string{"ping", "find_node", "get_peers"}
+	for c := 0; c < n; c++ {
+		ov := qOverlap{mode: []string{"barrier", "held", "limiter", "barrier"}[rg.intn(4)], sameIP: rg.intn(4) == 0}
+		K := 2 + rg.intn(maxK-1)
+		resend := false
+		for j := 0; j < K; j++ {
+			x := qOvQuery{tries: 1 + rg.intn(4), method: methods[rg.intn(3)]}
+			switch rg.intn(5) {
+			case 0:
+				x.point, x.i, x.action = "g", 1+rg.intn(x.tries), "reply"
+			case 1:
+				x.point, x.i, x.action = "w", 1+rg.intn(x.tries), "reply"
+			case 2:
+				x.point, x.i, x.action = "g", 1+rg.intn(x.tries), "cancel"
+			}
+			if x.tries >= 2 && (x.point == "" || x.i >= 2) {
+				resend = true
+			}
+			ov.qs = append(ov.qs, x)
+		}
+		if !resend {
+			ov.qs[0] = qOvQuery{tries: 3, method: "ping"}
+		}
+		ov.cross = ov.mode != "limiter" && rg.intn(3) == 0
+		ad(fmt.Sprintf("seeded-%d", c), ov)
 	}
 }
